@@ -34,6 +34,12 @@ func VP_C16_At() {
 				vpAssume(starts[x] < ends[x] && ends[x] <= sm+1)
 			}
 		}
+		if ty := vpCaseOr("tiny", 0); ty > 0 {
+			// every coordinate in [0, tiny]: all orderings of the 2n
+			// coordinates, inverted and empty intervals and ties included,
+			// at a cost that allows one more interval
+			vpAssume(0 <= starts[x] && starts[x] <= ty && 0 <= ends[x] && ends[x] <= ty)
+		}
 		if vpCase("exclDegenerate") == 1 {
 			// known-finding class D2: empty or inverted intervals
 			vpAssume(starts[x] < ends[x])
@@ -47,6 +53,12 @@ func VP_C16_At() {
 		gs, ge := []int{0, 5, 20, 25}, []int{10, 15, 30, 35}
 		if g == 2 {
 			gs, ge = []int{0, 2, 4, 30}, []int{40, 6, 8, 34} // nested, then a late one
+		}
+		if g == 3 {
+			gs, ge = []int{0, 30, 12, 40}, []int{20, 10, 15, 45} // an inverted interval among nested and disjoint ones
+		}
+		if g == 4 {
+			gs, ge = []int{0, 10, 10, 5}, []int{10, 10, 20, 5} // abutting intervals and two empty ones on their seam and inside
 		}
 		perm := []int{0, 1, 2, 3}
 		k := vpChoice("perm", 24)
